@@ -24,11 +24,12 @@ from ..gen import docs as gdocs
 GLS = ('\\gls@defglossaryentry{ylab}%\n{%\nname={gname},%\ntext={glstextA},%\nplural={glspluralA},%\n'
        'description={glsdescrA},%\nfirst={first}%\n}%\n')
 GLS2 = GLS.replace('glstextA', 'glstextB').replace('glspluralA', 'glspluralB')
-SED = 's/\\\\cref\\{ylab\\}/Figure~1/g\ns/\\\\Cref\\{ylab\\}/Figure~1/g\n'
-SED2 = 's/\\\\cref\\{ylab\\}/Table~7/g\n'
+SED = 's/\\\\cref{ylab}/Figure~1/g\ns/\\\\Cref{ylab}/Figure~1/g\n'
+SED2 = 's/\\\\cref{ylab}/Table~7/g\n'
+SED3 = 's/\\\\cref{yother}/Section~3/g\ns/\\\\Cref{yother}/Section~3/g\n'
 DEFS = '\\newcommand{\\ydef}[1]{defbody #1}\n'
 
-FILES = {'a.glsdefs': GLS, 'b.glsdefs': GLS2, 'a.sed': SED, 'b.sed': SED2, 'defs.tex': DEFS,
+FILES = {'a.glsdefs': GLS, 'b.glsdefs': GLS2, 'a.sed': SED, 'b.sed': SED2, 'c.sed': SED3, 'defs.tex': DEFS,
          'lang.tex': '\\usepackage[german]{babel}\\selectlanguage{russian}\n',
          'r.txt': '# replacements\nso dass & sodass\n\nybodyx yy & Z\n', 'd.tex': DEFS}
 
@@ -51,6 +52,9 @@ def templates(rnd, u):
         pack='*,cleveref')
     add('cref-reader', '\\usepackage[poorman]{cleveref} %s \\cref{ylab} %s' % (w(17), w(18)), pack='*,cleveref')
     add('cref-writer2', '\\usepackage[poorman]{cleveref}\\YYCleverefInput{b.sed} %s \\cref{ylab} %s' % (w(19), w(20)),
+        pack='*,cleveref')
+    # reads a sed file of its own that lacks the label used (error mark when alone)
+    add('cref-reader2', '\\usepackage[poorman]{cleveref}\\YYCleverefInput{c.sed} %s \\cref{ylab} \\Cref{yother} %s' % (w(94), w(95)),
         pack='*,cleveref')
     add('theorem-writer', '\\newtheorem{yt}{Ytheorem} \\begin{yt} %s \\end{yt}' % w(21))
     add('theorem-reader', '\\begin{yt} %s \\end{yt} %s' % (w(22), w(23)))
@@ -114,7 +118,7 @@ class C17(core.Check):
             'writer before its reader at least once and immediate repetitions. server: 6-10 requests to one --as-server '
             'process (sequential and 8 concurrent clients) vs a fresh server per request. Judged: equality of '
             '(text, map | parts, stderr). non-trivial = sequence of >= 2 calls; distinct = distinct (pool, sequence)'
-            % 47)
+            % 48)
     level_text = ('Exploration over call histories: independence from history is a statement about all call sequences; '
                   'each case compares every call of a random sequence with the same call in a fresh process, and the '
                   'pool is built from pairs designed to carry state from a writer to a reader. The state-diff monitor '
